@@ -15,3 +15,9 @@ pub proof fn lemma_ascii_size_bound(s: Seq<u8>)
 {
     if s.len() == 0 { } else if two_digits(s) { lemma_ascii_size_bound(s.skip(2)); } else { lemma_ascii_size_bound(s.skip(1)); }
 }
+
+pub proof fn lemma_ascii_size_le_twice()
+    ensures forall|s: Seq<u8>| 0 <= #[trigger] ascii_size(s) <= 2 * s.len(),
+{
+    assert forall|s: Seq<u8>| 0 <= #[trigger] ascii_size(s) <= 2 * s.len() by { lemma_ascii_size_bound(s); }
+}
